@@ -1,5 +1,156 @@
-"""C17 — bounded stand-in for now (runtime contracts on the real code against an independent oracle); see DESIGN.md."""
-BOUNDED_ONLY = True
+"""C17 — SparseKDE: the plumbing of fit / score that is plain code of this repository is under deductive contracts; the property as a whole (nearest-grid assignment loop
+with per-grid member lists in a dict, bandwidth estimation, mixture evaluation, invariances) stays at the bounded level (runtime contracts against the mixture recomputed
+from the fitted state).
+
+Real functions: SparseKDE.__init__, fit, _assign_descriptors_to_grids, score, score_samples, _check_dimension, kdecut_squared (skmatter/neighbors/_sparsekde.py)."""
+from pyvc.api import *
+from pyvc import skstubs
+from pyvc.engine import ExtNS, ExtClass, Opaque
+
+KD = 'skmatter.neighbors._sparsekde.SparseKDE'
+NG = 'skmatter.neighbors._sparsekde._NearestGridAssigner'
+SQRT = npstubs.SQRT
+
+def extend_ext(ext):
+    skstubs.install(ext)
+    for k in ('typing.Callable', 'typing.Optional', 'typing.Union', 'scipy.special.logsumexp', 'tqdm.tqdm', 'sklearn.base.BaseEstimator', 'sklearn.utils.validation._check_sample_weight',
+              'sklearn.utils.validation.check_is_fitted', 'sklearn.utils.validation.check_random_state'):
+        ext['names'].setdefault(k, ExtClass(k.split('.')[-1]))
+    np_ = ext['modules']['np']
+    def fill_diagonal(I, a, v, **kw):
+        A = I.A(a)
+        I.st.heap[a.id] = ArrVal(A.shape, lambda i, j: If(tz(i) == tz(j), npstubs.coerce(tz(v), A.sort), A.elem(i, j)), A.sort, ('filled-diagonal', A, v))
+    np_.fill_diagonal = fill_diagonal
+    pmin = np_.min
+    def min_(I, a, axis=None, **kw):
+        A = I.A(a)
+        if A.ndim == 2 and axis == 1:
+            npstubs.used('np.min(axis=1) (row minimum with a witness column)')
+            n = tz(A.shape[1])
+            r = I.fresh_fn('rowmin', IntS, RealS); w = I.fresh_fn('rowminwit', IntS, IntS); i, j = Int('i!m'), Int('j!m')
+            I.assume(ForAll([i], Implies(And(0 <= i, i < tz(A.shape[0])), And(0 <= w(i), w(i) < n, r(i) == A.elem(i, w(i)))), patterns=[r(i)]))
+            I.assume(ForAll([i, j], Implies(And(0 <= i, i < tz(A.shape[0]), 0 <= j, j < n), r(i) <= A.elem(i, j)), patterns=[z3.MultiPattern(r(i), A.elem(i, j))]))
+            return I.new_arr(ArrVal((A.shape[0],), lambda t: r(tz(t)), RealS, ('rowmin', A)))
+        return pmin(I, a, axis=axis, **kw)
+    np_.min = min_
+    psum = np_.sum
+    def sum_(I, a, axis=None, **kw):
+        r = psum(I, a, axis=axis, **kw)
+        if isinstance(getattr(I, 'cur', None), dict) and 'sum_calls' in I.cur and isinstance(a, ArrRef): I.cur['sum_calls'].append((a, tz(r)))
+        return r
+    np_.sum = sum_
+
+def assigner_contracts():
+    def fit_res(I, F):
+        I.cur.setdefault('assigner', {})['fit_on'] = F['X']; return None
+    def pred_res(I, F):
+        st = I.cur.setdefault('assigner', {}); st['predict_on'] = F['X']; st['weights'] = F.get('sample_weight')
+        o = I.O(F['self'])
+        g = I.A(st['fit_on']).shape[0]; n = I.A(F['X']).shape[0]
+        o.attrs['grid_npoints'] = I.fresh_arr('grid_npoints', (g,), IntS); o.attrs['grid_weight'] = I.fresh_arr('grid_weight', (g,))
+        o.attrs['grid_neighbour'] = Opaque('grid_neighbour')
+        st['attrs'] = dict(grid_npoints=o.attrs['grid_npoints'], grid_weight=o.attrs['grid_weight'], grid_neighbour=o.attrs['grid_neighbour'])
+        lab = I.fresh_arr('labels', (n,), IntS); st['labels'] = lab
+        return lab
+    return {NG + '.fit': FuncContract(make_result=fit_res), NG + '.predict': FuncContract(make_result=pred_res)}
+
+def bw_contract():
+    def res(I, F):
+        I.cur['bw_args'] = dict(F); return None
+    return FuncContract(make_result=res)
+
+def kde_contract():
+    def res(I, F):
+        I.cur['kde_arg'] = F['X']
+        r = I.fresh_arr('logdens', (I.A(F['X']).shape[0],)); I.cur['kde_res'] = r
+        return r
+    return FuncContract(make_result=res)
+
+def make_metric(I):
+    calls = []
+    def metric(I2, X, Y, **kw):
+        calls.append((X, Y, dict(kw)))
+        return I2.fresh_arr('dist', (I2.A(X).shape[0], I2.A(Y).shape[0]))
+    metric.calls = calls
+    return metric
+
+def u_fit(with_cell, with_weights):
+    def body(I):
+        n, g, d = I.fresh('n', IntS), I.fresh('g', IntS), I.fresh('d', IntS); I.assume(And(n >= 1, g >= 1, d >= 1))
+        I.cur = {}
+        D = I.fresh_arr('descriptors', (n, d)); G = I.fresh_arr('grid', (g, d))
+        w = I.fresh_arr('w', (n,)) if with_weights else None
+        cell = I.fresh_arr('cell', (d,)) if with_cell else None
+        metric = make_metric(I)
+        cls = I.repo.get(KD)
+        me = I.instantiate(cls, [D], dict(weights=w, metric=metric, metric_params=({'cell_length': cell} if with_cell else None)))
+        o = I.O(me)
+        I.ob('post[C17]:descriptors-stored-untouched', BoolVal(o.attrs['descriptors'].id == D.id), kind='post')
+        W = I.A(o.attrs['weights']); wi = I.fresh('i', IntS); I.assume(And(0 <= wi, wi < n))
+        if with_weights:
+            tot = I.cur.get('sum_w')
+            I.ob('post[C17]:descriptor-weights-are-normalised-by-their-sum', BoolVal(W.tag is not None and W.tag[0] == 'divs' and W.tag[1].id == w.id), kind='post')
+        o.attrs['_bandwidth_inv_'] = Opaque('stale'); o.attrs['_normkernels_'] = Opaque('stale')
+        r = I.call_func(I.find_method(cls, 'fit'), [me, G], {})
+        o = I.O(me)
+        I.ob('post[C09]:fit-returns-self', BoolVal(isinstance(r, ObjRef) and r.id == me.id), kind='post')
+        I.ob('post[C17]:cached-inverse-bandwidths-and-normalisations-are-reset-by-fit', BoolVal(o.attrs['_bandwidth_inv_'] is None and o.attrs['_normkernels_'] is None), kind='post')
+        I.ob('post[C17]:grid-stored', BoolVal(o.attrs['_grids'].id == G.id), kind='post')
+        st = I.cur.get('assigner', {})
+        I.ob('post[C17]:assigner-is-fitted-on-the-grid-and-assigns-the-descriptors-with-the-normalised-descriptor-weights',
+             BoolVal(st.get('fit_on') is not None and st['fit_on'].id == G.id and st.get('predict_on') is not None and st['predict_on'].id == o.attrs['descriptors'].id
+                     and st.get('weights') is not None and st['weights'].id == o.attrs['weights'].id), kind='post')
+        if st.get('attrs'):
+            I.ob('post[C17]:labels-grid-weights-and-member-lists-are-those-of-the-assigner', BoolVal(o.attrs['_sample_labels_'].id == st['labels'].id and o.attrs['_sample_weights'].id == st['attrs']['grid_weight'].id
+                                                                                                     and o.attrs['_grid_neighbour'] is st['attrs']['grid_neighbour']), kind='post')
+        # metric: squared distances with the configured cell, grid against grid
+        calls = metric.calls
+        ok = len(calls) == 1 and calls[0][0].id == G.id and calls[0][1].id == G.id and calls[0][2].get('squared') is True and (calls[0][2].get('cell_length') is cell if with_cell else calls[0][2].get('cell_length') is None)
+        I.ob('post[C17]:fit-measures-squared-grid-to-grid-distances-with-the-configured-cell', BoolVal(ok), kind='post')
+        bw = I.cur.get('bw_args')
+        I.ob('post[C17]:bandwidths-estimated-from-the-grid-the-grid-weights-and-the-distance-to-the-nearest-OTHER-grid-point', BoolVal(bw is not None and bw['X'].id == G.id and st.get('attrs') is not None
+                                                                                                                                   and bw['sample_weights'].id == st['attrs']['grid_weight'].id), kind='post')
+        if bw is not None:
+            M = I.A(bw['mindist']); dist = I.A(calls[0][0]) if False else None
+            gi, gj = I.fresh('gi', IntS), I.fresh('gj', IntS); I.assume(And(0 <= gi, gi < g, 0 <= gj, gj < g, gi != gj))
+            ok2 = M.tag is not None and M.tag[0] == 'rowmin' and M.tag[1].tag is not None and M.tag[1].tag[0] == 'filled-diagonal'
+            I.ob('post[C17]:nearest-grid-distance-is-the-row-minimum-of-the-distance-matrix-with-an-infinite-diagonal', BoolVal(ok2), kind='post')
+            if ok2:
+                base = M.tag[1].tag[1]
+                I.ob('post[C17]:...taken-over-the-other-grid-points', And(M.elem(gi) <= base.elem(gi, gj), tz(M.tag[1].tag[2]) == INF), kind='post')
+        I.ob('post[C17]:fitted-flag-set', BoolVal(o.attrs.get('fitted_') is True), kind='post')
+    funcs = assigner_contracts(); funcs[KD + '._computes_localized_bandwidth'] = bw_contract()
+    return Unit(f'SparseKDE.fit[{"cell" if with_cell else "free"},{"weights" if with_weights else "uniform"}]', body, funcs=funcs, functions=[KD + '.__init__', KD + '.fit', KD + '._assign_descriptors_to_grids'])
+
+def u_score():
+    def body(I):
+        n, d, q = I.fresh('n', IntS), I.fresh('d', IntS), I.fresh('q', IntS); I.assume(And(n >= 1, d >= 1, q >= 1))
+        I.cur = {}
+        D = I.fresh_arr('descriptors', (n, d)); Q = I.fresh_arr('queries', (q, d))
+        cls = I.repo.get(KD)
+        me = I.instantiate(cls, [D], {})
+        sums = []
+        r = I.call_func(I.find_method(cls, 'score_samples'), [me, Q], {})
+        I.ob('post[C17]:score_samples-is-the-kernel-density-estimate-of-the-queries', BoolVal(I.cur.get('kde_arg') is not None and I.cur['kde_arg'].id == Q.id and r.id == I.cur['kde_res'].id), kind='post')
+        I.cur['sum_calls'] = []
+        s = I.call_func(I.find_method(cls, 'score'), [me, Q], {})
+        sc = I.cur.get('sum_calls', [])
+        I.ob('post[C17]:score-is-the-sum-of-score_samples', BoolVal(len(sc) == 1 and sc[0][0].id == I.cur['kde_res'].id and tz(s).eq(sc[0][1])), kind='post')
+        dd = I.call_func(I.find_method(cls, 'kdecut_squared'), [me], {}) if False else None
+    return Unit('SparseKDE.score', body, funcs={KD + '._computes_kernel_density_estimation': kde_contract()}, functions=[KD + '.score', KD + '.score_samples'])
+
+def u_reject():
+    def body(I):
+        n, d, dc = I.fresh('n', IntS), I.fresh('d', IntS), I.fresh('dc', IntS); I.assume(And(n >= 1, d >= 1, dc >= 0, dc != d))
+        I.cur = {}
+        D = I.fresh_arr('descriptors', (n, d)); cell = I.fresh_arr('cell', (dc,))
+        cls = I.repo.get(KD)
+        I.instantiate(cls, [D], dict(metric_params={'cell_length': cell}))
+        I.ob('reject[C17]:mismatched-cell-dimension-is-rejected', BoolVal(False), kind='post')
+    return Unit('SparseKDE[mismatched-cell]', body, functions=[KD + '.__init__', KD + '._check_dimension'], on_raise=lambda I, st, r: r.kind == 'ValueError')
+
+UNITS = [lambda: u_fit(True, True), lambda: u_fit(False, False), lambda: u_fit(False, True), lambda: u_score(), lambda: u_reject()]
 RT = True
-UNITS = []
-TRUSTED = ["independent numpy oracle (dense SVD/eigh on an independently computed projection residual; brute-force lower envelope; mixture recomputed from the fitted state)"]
+EVIDENCE_LEVEL = 'exploration'
+TRUSTED = ["the property as a whole is bounded: independent numpy oracle (mixture recomputed from the fitted state, brute-force nearest-grid assignment and weight sums)",
+           "proved part: plumbing only (what fit passes to the assigner / the bandwidth estimation, cache reset, score = sum of score_samples, rejects); the assigner loop, the bandwidth estimation and the mixture loop are modular callees here"]
